@@ -32,7 +32,7 @@ RULE = ("generated: seeded multi-file programs (1-3 linked files, 0-2 include fi
         "`.end` early, `.once`, `.link` at the start of the first file only) with labels (each followed by a unique 3-byte marker), local labels, constants of any value "
         "(boundary-biased: 0, +-1, +-2^n, +-(2^n-1) up to 2^100, equal values under different names, names differing only in case, "
         "names with '.', '$', U+017F/U+212A); synthetic symbol tables given directly to Compiler.generate_listing; "
-        "real CLI runs with --lst x 24 output selectors.  A case is non-trivial and distinct if its listing text is new and has >= 2 symbol lines, "
+        "real CLI runs with --lst x 50 output selectors (incl. '.bin'/'.raw'/'.wav'/'.lst'/'.bk_wav' inside directory names and file stems, relative and absolute, via -o and make_xxx).  A case is non-trivial and distinct if its listing text is new and has >= 2 symbol lines, "
         "or (cli) its (selector, program) pair is new")
 LEVEL_TEXT = ("Coq theorems about an executable model of Compiler.generate_listing and of the --lst path derivation: the generated text is a listing "
               "in the sense of Spec/Listing.v (every ordinary symbol exactly once under its file, no local label, blocks in first-appearance order, "
@@ -433,6 +433,33 @@ def sel_list():
     S.append(("none", [], None, None, False))
     # -o together with make_xxx: both files are written (make first); the listing is named after the -o file
     S.append(("o+make", ["-o", "{root}/out/viaopt.bin"], 'make_raw "../out/viamake.raw"\n', "out/viaopt.bin", False))
+    # the format extension (or ".lst") inside a directory name or a file stem: only a TRAILING ".<format>" is replaced
+    S.append(("o-dirbin-abs", ["-o", "{root}/out/roms.bin/out.bin"], None, "out/roms.bin/out.bin", False))
+    S.append(("o-dirbin-rel", ["-o", "roms.bin/out.bin"], None, "cwd/roms.bin/out.bin", False))
+    S.append(("o-dirbin-noext", ["-o", "{root}/out/roms.bin/out"], None, "out/roms.bin/out", False))
+    S.append(("o-dirraw-abs", ["-o", "{root}/out/a.raw/b.raw"], None, "out/a.raw/b.raw", False))
+    S.append(("o-dirraw-rel-noext", ["-o", "dumps.raw/core"], None, "cwd/dumps.raw/core", False))
+    S.append(("o-binbin", ["-o", "{root}/out/x.bin.bin"], None, "out/x.bin.bin", False))
+    S.append(("o-rawraw-rel", ["-o", "y.raw.raw"], None, "cwd/y.raw.raw", False))
+    S.append(("o-binary-dir-bin", ["-o", "{root}/out/my.binary/out.bin"], None, "out/my.binary/out.bin", False))
+    S.append(("o-binary-dir-noext", ["-o", "{root}/out/my.binary/out"], None, "out/my.binary/out", False))
+    S.append(("o-rawfile-dir", ["-o", "{root}/out/my.rawfiles/out.raw"], None, "out/my.rawfiles/out.raw", False))
+    S.append(("o-bin-old", ["-o", "{root}/out/out.bin.old"], None, "out/out.bin.old", False))
+    S.append(("o-raw-old", ["-o", "{root}/out/out.raw.old"], None, "out/out.raw.old", False))
+    S.append(("o-raw-old-rel", ["-o", "out.raw.old"], None, "cwd/out.raw.old", False))
+    S.append(("o-lst-stem", ["-o", "{root}/out/x.lst.bin"], None, "out/x.lst.bin", False))
+    S.append(("o-lst-dir", ["-o", "{root}/out/l.lst/out.bin"], None, "out/l.lst/out.bin", False))
+    S.append(("o-wav-dir", ["-o", "{root}/out/w.wav/out.raw"], None, "out/w.wav/out.raw", False))
+    S.append(("make_bin-dirbin", [], 'make_bin "../out/roms.bin/game.bin"\n', "out/roms.bin/game.bin", False))
+    S.append(("make_bin-dirbin-beside-src", [], 'make_bin "roms.bin/game.bin"\n', "src/roms.bin/game.bin", False))
+    S.append(("make_bin-binbin", [], 'make_bin "../out/g.bin.bin"\n', "out/g.bin.bin", False))
+    S.append(("make_raw-dirraw", [], 'make_raw "../out/a.raw/b.raw"\n', "out/a.raw/b.raw", False))
+    S.append(("make_raw-dirraw-noext", [], 'make_raw "../out/dumps.raw/core"\n', "out/dumps.raw/core", False))
+    S.append(("make_raw-raw-old", [], 'make_raw "../out/m.raw.old"\n', "out/m.raw.old", False))
+    S.append(("make_wav-dirwav", [], 'make_wav "../out/w.wav/t.wav"\n', "out/w.wav/t.wav", False))
+    S.append(("make_wav-dirfmt", [], 'make_wav "../out/d.bk_wav/t.wav"\n', "out/d.bk_wav/t.wav", False))
+    S.append(("make_wav-fmt-ext", [], 'make_wav "../out/t.bk_wav"\n', "out/t.bk_wav", False))
+    S.append(("make_wav-fmt-stem", [], 'make_wav "../out/u.bk_wav.wav"\n', "out/u.bk_wav.wav", False))
     return S
 
 
@@ -446,6 +473,8 @@ def run_cli_case(job):
             f.write(text)
     for d in ("cwd", "out", "out/d.ir"):
         os.makedirs(os.path.join(root, d), exist_ok=True)
+    if job.get("out_rel"):
+        os.makedirs(os.path.dirname(os.path.join(root, job["out_rel"])), exist_ok=True)
     env = dict(os.environ)
     env["PYTHONPATH"] = C.REPO
     env["PYTHONHASHSEED"] = "0"
@@ -704,11 +733,11 @@ def explore(rep, br, tier, seed, spec_only=False):
 
 def search(rep, br, tier, seed):
     """model-free: the same generators with another seed, judged by Spec/Listing only"""
-    explore(rep, br, tier, seed + 1, spec_only=True)
+    _explore_without_t(rep, br, tier, seed + 1, spec_only=True)
 
 
 def search_without_model(rep, tier, seed):
-    explore(rep, None, tier, seed + 1, spec_only=True)
+    _explore_without_t(rep, None, tier, seed + 1, spec_only=True)
 
 
 # ---------------------------------------------------------------------------------------------
